@@ -39,7 +39,7 @@ def build_source(rng, case, k):
     nt = int(rng.randint(2, 5))
     nc = int(rng.randint(4, 8))
     ns = int(rng.randint(5, 16))
-    kind = ['none', 'same', 'split', 'split-gap'][k % 4]          # curation kinds
+    kind = ['none', 'same', 'split', 'split-gap', 'merge2'][k % 5]          # curation kinds
     empty = [[], [nt - 1], [0]][k % 3] if kind in ('none', 'same') else []
     ds = D.random_dense(rng, ns=ns, nt=nt, nc=nc, nsw=int(rng.randint(2, 5)),
                         whitening='monomial' if case['wm'] else 'none', rate=[1024, 2048, 32768][k % 3],
@@ -59,6 +59,25 @@ def build_source(rng, case, k):
         ds['sc'] = None
     elif kind == 'same':
         ds['sc'] = ds['st'].copy()
+    elif kind == 'merge2':
+        # templates 0 and 1 merged into a new cluster with the SAME number of spikes from each: the cluster
+        # waveform is the plain mean of two templates (entries doubled so that it stays integral); a cluster
+        # whose templates peak at different depths separates 'depth of the cluster' from 'depth of the template'
+        st = np.asarray(ds['st'])
+        idx = np.nonzero(st <= 1)[0]
+        h = len(idx) // 2
+        if h == 0:
+            kind = 'same'
+            ds['sc'] = st.copy()
+        else:
+            ds['T'][[0, 1]] *= 2
+            st[idx[:h]], st[idx[h:2 * h]] = 0, 1
+            if len(idx) > 2 * h:
+                st[idx[2 * h]] = 0                                   # the odd spike stays in cluster 0 on its own
+            ds['st'] = st
+            sc = st.copy()
+            sc[idx[:2 * h]] = nt
+            ds['sc'] = sc
     else:
         ds['sc'] = curate_single_origin(rng, ds['st'], nt)
         if kind == 'split-gap':
@@ -186,6 +205,9 @@ def convert_case(ctx, d, rng, case, k, prop):
                             and label and ('.%s.' % label) not in x)
         if missing or unlabelled:
             problems.append(('C13.target_files', 'target files missing %r, without the label %r' % (missing, unlabelled)))
+            if m2 is not None:
+                m2.close()
+            return problems, None                 # (the exported values cannot be located by name)
         elif extra:
             ctx.note('target_files', 'the target directory holds files the pipeline model does not know: %r' % extra)
         # ---- reload equality (C13)
@@ -232,7 +254,7 @@ def merged_case(ctx, d, rng, k):
         # single uncurated probe would disagree with one-cluster-per-template)
         ds, tsv, rec = merge_common.make_probe(rng, j, shared, k, allow_empty=False)
         ds['pos'] = np.c_[(np.arange(len(ds['chmap'])) % 2) * 16.0 + 0.0, np.arange(len(ds['chmap'])) * 20.0]
-        sub = root / ('p%d' % j)
+        sub = root / ('p%d' % (9 + j))
         D.write_dataset(sub, ds)
         subdirs.append(sub)
         chmaps += as_list(ds['chmap'])
@@ -280,15 +302,15 @@ def merged_case(ctx, d, rng, k):
 def run(ctx, prop):
     ctx.rule = ('S->C->S: every skeleton of the conversion pipeline emitted by TLC (raw data / KSLabel / temp_wh.dat / '
                 'probe table / whitening / label: 64 skeletons) x curation kinds (no cluster file, identical, split, '
-                'split with gaps; empty templates at either end) x unit factors {1, 2, 0.5} x with / without features '
+                'split with gaps, two templates merged; empty templates at either end) x unit factors {1, 2, 0.5} x with / without features '
                 'is materialised, converted by the real EphysAlfCreator and compared: source and target listings, '
                 'labels, same-directory guard, source frame by hashing, reload equality; exported values are validated '
                 'by Trace_Alf. Plus datasets merged from 1..4 probes by the real Merger (rawInd inversion). '
                 'Non-trivial = curated or merged.')
     ctx.assumptions += ['neighbourhood size overridden to 3 (2 for merged datasets) so that probes are larger than the '
                         'exported channel list; cluster ids below 65536',
-                        'curated clusters stem from a single template each (integer cluster waveforms); merged '
-                        'clusters are covered by C08',
+                        'curated clusters stem from a single template each, or from two templates with equal spike counts '
+                        '(integer cluster waveforms); general merged clusters are covered by C08',
                         'probe tables are constant (one probe) or produced by the real merger']
     ctx.model_check('Alf', 'MC_Alf.cfg', workers=4, timeout=1800,
                     expect_actions=('APick', 'Step'),
@@ -319,6 +341,8 @@ def run(ctx, prop):
                 for key, msg in problems:
                     if key.startswith(prop + '.'):
                         ctx.violation(key, msg, dict(case=case, k=k))
+                if rec is None:
+                    continue
                 rec['id'] = len(recs) + 1
                 recs.append(rec)
         for j in range(40 if ctx.quick else 1200):
